@@ -281,6 +281,47 @@ def rule_call_apply_name(check):
     pushes = [x for x in h.nodes() if hir.is_call(x) and (hir.callee_name(x) or x.get("method")) in ("push", "insert", "extend", "push_back") and (hir.local_of(hir.call_args(x)[0]) or (None,))[0] == vloc]
     descents = [x for x in h.nodes() if hir.is_call(x) and prog.resolve_local(x) is h]
     loops = [l for l in loops if any(any(y is l for y in h.ancestors(x)) for x in pushes + descents)]
+    if len(loops) == 1 and not descents and hir.while_let_shape(loops[0]) and all(any(y is loops[0] for y in h.ancestors(x)) for x in pushes):
+        # iterative form: `let mut cur = Some(member); while let Some(m) = cur { .. cur = Some(<m.obj ..>) | None }`
+        from ..prov import value_exprs
+
+        cur, m, blk = hir.while_let_shape(loops[0])
+        b = h.bindings().get(cur)
+        init = b["origin"][1] if b and b["origin"][0] == "let" else None
+        io = pv.origins(h, init) if init is not None else set()
+        starts = bool(io) and all(r[0] == "param" and r[2] == mi and p_ in ((), ("Some", "0"), ("Some.0",)) for r, p_ in io)
+        own = [x for x in pushes if (hir.root_path(h, hir.call_args(x)[1], stop=(m,)) or (None, []))[0] == m and (hir.root_path(h, hir.call_args(x)[1], stop=(m,)) or (None, [None]))[1][:1] == ["prop"] and (x.get("method") or hir.callee_name(x)) == "push"]
+        steps = []
+        for a in h.assignments_to(cur):
+            if not any(y is loops[0] for y in h.ancestors(a)):
+                continue
+            for v in value_exprs(a["r"]):
+                v = hir.peel(v)
+                if v.get("k") == "Call" and (hir.peel(v["f"]).get("res", {}).get("ctor_path") or "").split("::")[-1] == "Some":
+                    rp = hir.root_path(h, v["args"][0], stop=(m,))
+                    steps.append((a, rp is not None and rp[0] == m and rp[1][:1] == ["obj"]))
+                elif not (v.get("k") == "Path" and (v["res"].get("ctor_path") or "").split("::")[-1] == "None"):
+                    steps.append((a, False))
+        why = []
+        ok = starts and len(own) == 1
+        if not starts:
+            why.append("the walk does not start at the member itself")
+        if len(own) != 1:
+            why.append("%d pushes of the current member's own property" % len(own))
+        if ok:
+            for x in pushes:
+                if x is not own[0] and not _dominated_by(h, own[0], x):
+                    ok = False
+                    why.append("a push at %s is not preceded by the push of the member's own property" % hir.loc(x))
+            for a, to_obj in steps:
+                if not to_obj:
+                    ok = False
+                    why.append("the step at %s does not go to member.obj" % hir.loc(a))
+                if not _dominated_by(h, own[0], a):
+                    ok = False
+                    why.append("the step down the chain at %s is taken without pushing this member's property first (a computed or private key is skipped)" % hir.loc(a))
+        check.expect(ok, R, key + "/contiguous", hir.loc(h.rec), "%s (iterative) pushes member.prop before any other element and before stepping to member.obj" % h.name, "%s can report a name that is not the direct property of the called function: %s" % (h.name, "; ".join(why)))
+        return
     if loops:
         check.bad(R, key, hir.loc(loops[0]), "%s walks the member chain with a loop; the rule only follows the recursive form and cannot show that a name is pushed before every step down the chain" % h.name)
         return
